@@ -109,6 +109,45 @@ def classify_library(ck, f, unit, files, label, extra_ok=None):
     return n_sites, summaries
 
 
+def gen_summaries(ck, ff, unit, label, r_move="L5-rettmp-move", r_unbal="L1-generated-unbalanced"):
+    """Generated code owns what it holds through ordinary moves and drops; the only accepted uses of ownership primitives are the two
+    forms of the RetTmp move idiom.  Shared by C06 (every owned value) and C07 (the context is one of the owned fields)."""
+    n = 0
+    for fn in ff.fns(unit):
+        if not fn["exp"] or not any(mm in fn["macro"] for mm in ("cglue_trait", "cglue_impl_group", "cglue_forward")):
+            continue
+        body, sites, nets, loops = ledger.fn_summary(fn)
+        if not sites:
+            continue
+        n += 1
+        key = "%s/%s" % (label, fn["path"])
+        kinds = sorted(s.kind for s in sites)
+        if nets is not None and set(nets) == {0}:
+            # the only accepted generated idiom with primitives: move a wrapped borrowed child into its RetTmp slot
+            ok = kinds == ["forget", "ptr_copy"]
+            if ok:
+                cpy = [s for s in sites if s.kind == "ptr_copy"][0]
+                fg = [s for s in sites if s.kind == "forget"][0]
+                src = mir.strip(body.origin_operand(cpy.term["args"][0]))
+                fo = body.origin_operand(fg.term["args"][0])
+                ok = src == fo and body.dominates(cpy.bb, fg.bb)
+            ck.ob(r_move, key, ok, "%s: generated code uses ownership primitives %s outside the RetTmp move idiom (copy value into slot, forget the same value)" % (fn["path"], kinds),
+                  sample={"fn": fn["path"], "sites": kinds})
+        elif nets is not None and set(nets) == {-1} and kinds == ["ptr_write"]:
+            # second form of the same idiom (`ret_tmp.as_mut_ptr().write(ret)`): the wrapped child is moved into the slot
+            w = sites[0]
+            dst = mir.strip(body.origin_operand(w.term["args"][0]))
+            while dst[0] == "call" and dst[1].endswith("as_mut_ptr"):
+                dst = mir.strip(dst[2][0])
+            val = body.origin_operand(w.term["args"][1])
+            ok = dst[0] == "field" and dst[1] == ("arg", 1) and val[0] == "call" and val[1].endswith("Opaquable::into_opaque") and fn["def_kind"] == "Closure"
+            ck.ob(r_move, key, ok, "%s: generated code writes %s into %s outside the RetTmp move idiom" % (fn["path"], mir.fmt(val)[:80], mir.fmt(dst)[:80]),
+                  sample={"fn": fn["path"], "sites": kinds})
+        else:
+            ck.violation(r_unbal, key, "%s: generated function with net ownership effect %s (%s)" % (fn["path"], sorted(nets) if nets else None, kinds))
+    return n
+
+
 def run(tier):
     ck = report.Check("C06", tier, level="other")
     f = facts.cfg_cglue()
@@ -154,43 +193,8 @@ def run(tier):
     # owning instances do need drop (the rule above is not vacuous)
     ck.require(probes.get("SS_bare_cbox_noctx_PSS", {}).get("needs_drop") is True, "CBox<T> needs drop (control)")
     # ---- generated code -------------------------------------------------------------------------------
-    def gen_summaries(ff, unit, label):
-        n = 0
-        for fn in ff.fns(unit):
-            if not fn["exp"] or not any(mm in fn["macro"] for mm in ("cglue_trait", "cglue_impl_group", "cglue_forward")):
-                continue
-            body, sites, nets, loops = ledger.fn_summary(fn)
-            if not sites:
-                continue
-            n += 1
-            key = "%s/%s" % (label, fn["path"])
-            kinds = sorted(s.kind for s in sites)
-            if nets is not None and set(nets) == {0}:
-                # the only accepted generated idiom with primitives: move a wrapped borrowed child into its RetTmp slot
-                ok = kinds == ["forget", "ptr_copy"]
-                if ok:
-                    cpy = [s for s in sites if s.kind == "ptr_copy"][0]
-                    fg = [s for s in sites if s.kind == "forget"][0]
-                    src = mir.strip(body.origin_operand(cpy.term["args"][0]))
-                    fo = body.origin_operand(fg.term["args"][0])
-                    ok = src == fo and body.dominates(cpy.bb, fg.bb)
-                ck.ob("L5-rettmp-move", key, ok, "%s: generated code uses ownership primitives %s outside the RetTmp move idiom (copy value into slot, forget the same value)" % (fn["path"], kinds),
-                      sample={"fn": fn["path"], "sites": kinds})
-            elif nets is not None and set(nets) == {-1} and kinds == ["ptr_write"]:
-                # second form of the same idiom (`ret_tmp.as_mut_ptr().write(ret)`): the wrapped child is moved into the slot
-                w = sites[0]
-                dst = mir.strip(body.origin_operand(w.term["args"][0]))
-                while dst[0] == "call" and dst[1].endswith("as_mut_ptr"):
-                    dst = mir.strip(dst[2][0])
-                val = body.origin_operand(w.term["args"][1])
-                ok = dst[0] == "field" and dst[1] == ("arg", 1) and val[0] == "call" and val[1].endswith("Opaquable::into_opaque") and fn["def_kind"] == "Closure"
-                ck.ob("L5-rettmp-move", key, ok, "%s: generated code writes %s into %s outside the RetTmp move idiom" % (fn["path"], mir.fmt(val)[:80], mir.fmt(dst)[:80]),
-                      sample={"fn": fn["path"], "sites": kinds})
-            else:
-                ck.violation("L1-generated-unbalanced", key, "%s: generated function with net ownership effect %s (%s)" % (fn["path"], sorted(nets) if nets else None, kinds))
-        return n
     m = model.Model(cf)
-    n_gen = gen_summaries(cf, None, "corpus")
+    n_gen = gen_summaries(ck, cf, None, "corpus")
     ck.floor("generated functions using ownership primitives (corpus)", n_gen, 4)
     # casts are pure moves: no primitive at all, and group structs have no Drop impl
     n_cast = 0
@@ -205,10 +209,10 @@ def run(tier):
     ck.floor("cast functions", n_cast, 40)
     ct = facts.cfg_cglue(tests=True)
     ck.unit("cglue --tests")
-    gen_summaries(ct, "cglue-test", "cglue-tests")
+    gen_summaries(ck, ct, "cglue-test", "cglue-tests")
     ex = facts.cfg_examples()
     ck.unit("examples")
-    gen_summaries(ex, None, "examples")
+    gen_summaries(ck, ex, None, "examples")
     return ck.finish(
         "ownership ledger: every site that bypasses ownership tracking (forget, ManuallyDrop, leak/into_raw/from_raw, ptr::read/write/copy, "
         "assume_init, transmute of droppy types, drop_in_place, calls through stored drop/clone slots) in boxed.rs, trait_group.rs and all generated "
